@@ -17,8 +17,10 @@ type c15Op struct {
 	Proto string `json:"proto,omitempty"`
 	Inst  int    `json:"inst,omitempty"`   // index into the instances created so far (mod len)
 	Cl    int    `json:"client,omitempty"` // index into that instance's live clients (mod len)
-	Key   string `json:"key,omitempty"`
-	Val   string `json:"val,omitempty"`
+	// start: the plugin ignores the shutdown request and polite signals (it has to be force-killed)
+	Stubborn bool   `json:"stubborn,omitempty"`
+	Key      string `json:"key,omitempty"`
+	Val      string `json:"val,omitempty"`
 }
 
 type c15Case struct {
@@ -31,13 +33,14 @@ func c15Gen(t *rapid.T) any {
 	if pct(t, "testfirst", 30) {
 		first = "starttest"
 	}
-	c.Ops = append(c.Ops, c15Op{Op: first, Proto: oneOf(t, "proto", []string{"netrpc", "grpc"})})
+	c.Ops = append(c.Ops, c15Op{Op: first, Proto: oneOf(t, "proto", []string{"netrpc", "grpc"}), Stubborn: first == "start" && pct(t, "stubborn", 30)})
 	n := 2 + uniform(t, "nops", 9)
 	for i := 0; i < n; i++ {
 		op := c15Op{Inst: uniform(t, "inst", 4), Cl: uniform(t, "cl", 4)}
 		switch weighted(t, "op", 6, 6, 30, 18, 18, 12, 7, 3) {
 		case 0:
 			op.Op, op.Proto = "start", oneOf(t, "proto", []string{"netrpc", "grpc"})
+			op.Stubborn = pct(t, "stubborn", 40)
 		case 1:
 			op.Op, op.Proto = "starttest", oneOf(t, "proto", []string{"netrpc", "grpc"})
 		case 2:
@@ -132,7 +135,12 @@ func c15Run(ci any) (out Outcome) {
 				continue
 			}
 			cc := hostCfg()
-			cc.Cmd = pluginCmd(PluginSpec{LegacyVersion: 1, Legacy: &set, GRPCServer: op.Proto == "grpc"})
+			pspec := PluginSpec{LegacyVersion: 1, Legacy: &set, GRPCServer: op.Proto == "grpc"}
+			if op.Stubborn {
+				pspec.After = AfterSpec{Mode: "never"}
+				out.label("stubborn-plugin")
+			}
+			cc.Cmd = pluginCmd(pspec)
 			cl := plugin.NewClient(cc)
 			h, _, err := dispense(cl, "p")
 			if err != nil {
@@ -263,17 +271,10 @@ func c15Run(ci any) (out Outcome) {
 				}
 			} else {
 				// killing any client of a normal plugin terminates that plugin
-				if !waitPidGone(in.pid, 5*time.Second) {
-					// the original client reaps its child; give its wait goroutine a chance via its own Kill
-					for _, o := range in.clients {
-						if !o.reattached {
-							killBounded(o.cl, 20*time.Second)
-						}
-					}
-					if !waitPidDead(in.pid, 3*time.Second) {
-						out.violate("step %d: Kill through a client (reattached=%v) returned but plugin process %d is still running", step, k.reattached, in.pid)
-						return
-					}
+				// (dead = gone or a zombie: the client that launched it reaps it in its own time)
+				if !waitPidDead(in.pid, 5*time.Second) {
+					out.violate("step %d: Kill through a client (reattached=%v) returned but plugin process %d is still running", step, k.reattached, in.pid)
+					return
 				}
 				in.alive = false
 				for _, o := range in.clients {
